@@ -226,7 +226,11 @@ def cyc_list(vals, M):
     out = []
     for v in vals:
         try:
-            out.append(C.coeffs(C.conv(sp.sympify(v))))
+            sv = sp.sympify(v)
+            if sv.has(sp.zoo) or sv.has(sp.nan) or sv.has(sp.oo):
+                out.append('singular')          # the closed form is undefined at this index
+                continue
+            out.append(C.coeffs(C.conv(sv)))
         except (ValueError, ZeroDivisionError, sp.PolynomialError, TypeError, NotImplementedError) as e:
             out.append(None)
     return out
